@@ -59,6 +59,8 @@ func main() {
 		err = runL1S(seed, n, dir)
 	case "l2c":
 		err = runL2C(seed, n, dir)
+	case "l2t":
+		err = runL2T(seed, n, dir)
 	case "l2":
 		prof := "single"
 		if len(os.Args) > 5 {
